@@ -1,4 +1,5 @@
 """C09 — Cohort and user-counting data follow the server and persist."""
+import re
 from ..core import BV, strip, walk, fmt_t
 from .. import lib, guards, sm as smod, terms
 from ..sm import reach, path, reach_in, reach_pf
@@ -149,6 +150,11 @@ def run(F, R):
                 f = chain.split(".")[-1]
                 src_ok = val.endswith("@Ok.0.cohort.%s" % f) and "from_str" in val
                 g_ok = any((g == "is_none(param1.0.cohort.%s)" % f and tr is True) or (g == "param1.0.cohort.%s" % f and tr == "None") for g, tr in gs)
+                # `self.f = self.f.take().or(persisted.f)` (also clone()/or_else(|| ..)): keeps a set field, takes the persisted
+                # one otherwise — the same table without a test
+                m_or = re.fullmatch(r"or(?:_else)?\((?:take|clone)\(param1\.0\.cohort\.%s\), (?:\|\| )?(.*@Ok\.0\.cohort\.%s)\)" % (f, f), val)
+                if m_or and "from_str" in m_or.group(1):
+                    src_ok = g_ok = True
                 seen.add(f)
                 R.check("C09-R1", "restore:" + f, src_ok and g_ok, "cohort.%s <- persisted cohort.%s when unset" % (f, f),
                         "App::load writes %s = %s under %s" % (chain, val[-80:], gs), lib.loc(v2, bi))
@@ -275,7 +281,14 @@ def run(F, R):
                             for ps in par.blocks[pb]["s"]:
                                 if ps["k"] == "assign" and ps["r"]["k"] == "agg" and ps["r"].get("id") == b["id"]:
                                     cap = terms.render(par, par.trace_op(ps["r"]["ops"][0]), W, {})
-                    R.check("C09-R3", "daystart:" + (W.by_id[b["parent"]]["item"] if b.get("parent") and W.by_id[b["parent"]].get("item") else b["id"].split("::")[-3]), uc == "param1.0" and cap.endswith(".daystart"),
+                    # built directly in the flow (a `for` loop instead of map+collect): the value itself is the daystart
+                    direct = uc
+                    while True:
+                        m_w = re.fullmatch(r"(?:from|into|clone|to_owned)\((.*)\)", direct)
+                        if not m_w:
+                            break
+                        direct = m_w.group(1)
+                    R.check("C09-R3", "daystart:" + (W.by_id[b["parent"]]["item"] if b.get("parent") and W.by_id[b["parent"]].get("item") else b["id"].split("::")[-3]), (uc == "param1.0" and cap.endswith(".daystart")) or (direct.endswith(".daystart") and "parse_omaha_response(" in direct),
                             "user_counting <- response.daystart", "AppResponse.user_counting <- %s (%s)" % (uc, cap[-60:]), lib.loc(v, bi))
     R.floor("C09-R3", "AppResponse constructors", n, 2)
     fr = [b for b in lib.bodies(c, item="from", impl_self="common::UserCounting", impl_trait="std::convert::From")]
